@@ -291,7 +291,7 @@ Theorem parse_render : forall d i rb m,
   in_feature_set m = true -> good_value d = true -> good_value i = true ->
   oracles_ok pa pl pd d m -> boundaries_ok z = true -> fresh_expected z = true ->
   exists st, eml_parse pa pl pd (r_out (write_to d i rb m unlimited)) = Ok st /\
-             project_parsed st = project_built d m.
+             project_parsed st = project_built d m /\ parsed_as d i m st.
 Proof.
   intros d i rb m z Hfs Hd Hi Ho Hb Hfr.
   assert (Hn : 1 <= length (Writer.m_parts m)).
